@@ -322,9 +322,9 @@ class C04(Check):
             return None, dict(size=res.size())
         if kind == 'span':
             s1 = self._arg(eng, inp, 'lo_s', 0, 59)
-            m1 = self._arg(eng, inp, 'lo_m', 0, 999) if (n <= 3 or job.get('fixed')) else 0
+            m1 = self._arg(eng, inp, 'lo_m', 0, 999) if (n <= 3 or (job.get('fixed') and n <= 17)) else 0
             s2 = self._arg(eng, inp, 'hi_s', 0, 59)
-            m2 = self._arg(eng, inp, 'hi_m', 0, 999) if (n <= 3 or job.get('fixed')) else 0
+            m2 = self._arg(eng, inp, 'hi_m', 0, 999) if (n <= 3 or (job.get('fixed') and n <= 17)) else 0
             t1 = ObsTime(2020, 2, 29, 23, 59, s1, m1)
             t2 = ObsTime(2020, 2, 29, 23, 59, s2, m2)
             res = tr.extractSpanTime(t1, t2)
